@@ -222,8 +222,8 @@ def padding_mask(prog, rep):
         if t["k"] != "switch":
             continue
         e = ir.term_operand(bi, t["o"])
-        if e[0] == "bin" and e[1] in ("Ne", "Eq") and e[3][0] == "c" and e[3][1] == 0 and e[2][0] == "bin" and e[2][1] == "BitAnd" and e[2][3][0] == "c":
-            m = e[2][3][1]
+        if e[0] == "bin" and e[1] in ("Ne", "Eq") and e[3][0] == "c" and e[3][1] == 0 and e[2][0] == "bin" and e[2][1] in ("BitAnd", "Shr") and e[2][3][0] == "c":
+            m = e[2][3][1] if e[2][1] == "BitAnd" else (0xff & ~((1 << e[2][3][1]) - 1))
             if m != 0x80:
                 # only when guarded by `i == last`
                 for c, rel, v, edge, dty in ir.edge_conditions(bi):
